@@ -77,8 +77,21 @@ impl PartialEq for K {
     }
 }
 impl Eq for K {}
+thread_local! {
+    /// Called whenever a key is hashed by this thread, i.e. right before every access to a hash map
+    /// (the map hashes the key before it takes the lock of the shard). The schedule controller parks
+    /// the thread there in its fine-grained mode: a switch point before every map access, also
+    /// inside maintenance, without any hook in the library.
+    pub static HASH_HOOK: std::cell::RefCell<Option<std::sync::Arc<dyn Fn() + Send + Sync>>> =
+        const { std::cell::RefCell::new(None) };
+}
+
 impl Hash for K {
     fn hash<H: Hasher>(&self, state: &mut H) {
+        let hook = HASH_HOOK.with(|h| h.borrow().clone());
+        if let Some(f) = hook {
+            f();
+        }
         state.write_u32(self.id);
     }
 }
